@@ -13,6 +13,12 @@ struct LineReader {
 }
 impl Read for LineReader {
     fn read(&mut self, buf: &mut [u8]) -> io::Result<usize> {
+        // a line of zero bytes (an empty last line without newline) cannot be delivered: Ok(0)
+        // would mean end-of-file to the caller, so it is skipped
+        while self.next < self.lines.len() && self.lines[self.next].is_empty()
+            && !(self.err_at != 0 && self.next + 1 >= self.err_at) {
+            self.next += 1;
+        }
         if self.err_at != 0 && self.next + 1 >= self.err_at {
             return Err(io::Error::new(io::ErrorKind::Other, "scripted I/O error"));
         }
